@@ -142,6 +142,6 @@ def contract():
     c.ens(f"implies({TOP} and {PROT}, {tot('HEADER_PROT_MULT')} == 1 and {tot('HEADER_PROT_UPPER')} == 0 and "
           f"{tot('HEADER_PROT_NAME')} == 0 and {tot('HEADER_PROT_ALL')} == 0)", "second_guard_is_reported")
     c.ens("implies(M not in " + repr(NAMES) + ", emitted_total(M) == old(emitted_total(M)))", "only_protection_names")
-    c.ens("result == (False, 0)", "result")
+    # (what a Check returns is ignored by Registry.run_rules: no clause on the result)
     c.mustfail(f"{tot('HEADER_PROT_NAME')} == 0", "never_reports_name")
     return c
